@@ -75,6 +75,12 @@ def generate(rng, tier):
         else:
             yield {"fam": "sens", "vals": base, "i": rng.randrange(n), "new": rng.choice(p), "path": rng.choice(paths),
                    "other": [rng.choice([7, 8]) for _ in range(n)]}
+    # long vectors, memo warm, every write path, promoting (hash-changing conversion of the untouched elements) and plain writes
+    for kind in ("date", "bigint", "int"):
+        for path in paths:
+            for new in ("promote", "same", "none"):
+                n = rng.choice([32, 33, 40, 64, 70])
+                yield {"fam": "sens", "long": {"kind": kind, "n": n, "new": new}, "i": rng.choice([0, 1, n // 2, n - 1]), "path": path}
     for _ in range(60 if tier == "quick" else 1500):
         n = rng.randint(1, 4)
         base = [rng.choice([1, 0, 2, -1, "a", None]) for _ in range(n)]
@@ -292,8 +298,29 @@ def execute(spec):
     return _history(spec)
 
 
+def _long_vals(spec):
+    """long vectors (beyond any size threshold a memo patch might use) whose in-place promotion changes the hash of the elements
+    that are merely converted: dates (-> datetime) and ints beyond 2**53 (-> float / complex)"""
+    import datetime as _dt
+    L = spec["long"]
+    n, kind = L["n"], L["kind"]
+    if kind == "date":
+        vals = [_dt.date(2020, 1, 1) + _dt.timedelta(days=(k * 7) % 300) for k in range(n)]
+        new = {"promote": _dt.datetime(2021, 5, 6, 7, 8), "same": _dt.date(1999, 1, 1), "none": None}[L["new"]]
+    elif kind == "bigint":
+        vals = [(1 << 60) + 3 * k + 1 for k in range(n)]
+        new = {"promote": 0.5, "same": 7, "none": None}[L["new"]]
+    else:
+        vals = [k % 5 - 2 for k in range(n)]
+        new = {"promote": 2.5, "same": 9, "none": None}[L["new"]]
+    return vals, new, [7 + (k % 2) for k in range(n)]
+
+
 def _sens(spec):
     from serif import Vector, Table
+    if "long" in spec:
+        lv, lnew, lother = _long_vals(spec)
+        spec = dict(spec, vals=lv, new=lnew, other=lother)
     vals = list(spec["vals"])
     n = len(vals)
     with warnings.catch_warnings():
@@ -333,7 +360,7 @@ def _sens(spec):
             got_v, got_t = list(v), list(t.cols()[0])
         except Exception as e:
             return {"skip": "write refused: " + type(e).__name__}
-    if [repr(x) for x in got_v] != [repr(x) for x in new_vals] and not _promoted_equal(got_v, new_vals):
+    if "long" not in spec and [repr(x) for x in got_v] != [repr(x) for x in new_vals] and not _promoted_equal(got_v, new_vals):
         return {"skip": "contents after write are not the plain list assignment (promotion converted elements)"}
     return {"fam": "sens", "case": {"hs": hashes(vals), "hs2": hashes(got_v), "other": hashes(spec["other"]),
                                     "hs2t": hashes(got_t)},
